@@ -52,6 +52,11 @@ type Descriptor struct {
 	// VoidReturn indicates if the constructor has no valid return values
 	VoidReturn bool
 
+	// outputs lists the descriptors registered by the same Add call, one per result-object field or return value
+	// (nil for a registration with a single output); outputName is the result-object field this descriptor stands for
+	outputs    []*Descriptor
+	outputName string
+
 	// Analysis results cached for performance
 	isFunc         bool
 	isResultObject bool
@@ -377,6 +382,28 @@ func (d *Descriptor) validateParameterTypes() error {
 					Cause:       fmt.Errorf("unsafe pointer is not supported as a dependency"),
 				}
 			}
+		}
+	}
+
+	return nil
+}
+
+// outputForField returns the descriptor registered for the named result-object field by the same Add call.
+func (d *Descriptor) outputForField(name string) *Descriptor {
+	for _, out := range d.outputs {
+		if out != nil && out.outputName == name {
+			return out
+		}
+	}
+
+	return nil
+}
+
+// outputForReturn returns the descriptor registered for the given return value by the same Add call.
+func (d *Descriptor) outputForReturn(index int) *Descriptor {
+	for _, out := range d.outputs {
+		if out != nil && out.MultiReturnIndex == index {
+			return out
 		}
 	}
 
